@@ -107,6 +107,8 @@ func (r *Recorder) Len() int {
 type Engine struct {
 	W      *sim.World
 	C      client.Client
+	// UC, if set, is the uncached client (defaults to C)
+	UC     client.Client
 	mu     sync.Mutex
 	run    map[string]bool
 	watch  map[string][]engine.WatchID
@@ -180,7 +182,12 @@ func (e *Engine) StopWatches(_ context.Context, name string, ws ...engine.WatchI
 func (e *Engine) GetCached() client.Client { return e.C }
 
 // GetUncached implements ControllerEngine.
-func (e *Engine) GetUncached() client.Client { return e.C }
+func (e *Engine) GetUncached() client.Client {
+	if e.UC != nil {
+		return e.UC
+	}
+	return e.C
+}
 
 // GetFieldIndexer implements ControllerEngine.
 func (e *Engine) GetFieldIndexer() client.FieldIndexer { return Indexer{e.W} }
@@ -206,6 +213,7 @@ func (i Indexer) IndexField(_ context.Context, obj client.Object, field string, 
 type XREnv struct {
 	W      *sim.World
 	C      *sim.Client // the XR controller's client (actor "xr")
+	UC     *sim.Client // its uncached client (same as C unless built with NewXREnvSplit)
 	XRD    *v1.CompositeResourceDefinition
 	Rec    *Recorder
 	Runner *xfn.PackagedFunctionRunner
@@ -220,6 +228,17 @@ type XREnv struct {
 func NewXREnv(w *sim.World, xrd *v1.CompositeResourceDefinition) *XREnv {
 	e := &XREnv{W: w, XRD: xrd, Rec: NewRecorder()}
 	e.C = w.Client("xr")
+	e.UC = e.C
+	e.GVK = xrd.GetCompositeGroupVersionKind()
+	e.Rebuild()
+	return e
+}
+
+// NewXREnvSplit is NewXREnv with distinct cached (possibly lagging) and uncached clients, as
+// in production where the XR controller reads through an informer cache and falls back to a
+// direct read.
+func NewXREnvSplit(w *sim.World, xrd *v1.CompositeResourceDefinition, cached, uncached *sim.Client) *XREnv {
+	e := &XREnv{W: w, XRD: xrd, Rec: NewRecorder(), C: cached, UC: uncached}
 	e.GVK = xrd.GetCompositeGroupVersionKind()
 	e.Rebuild()
 	return e
@@ -234,13 +253,14 @@ func (e *XREnv) Rebuild() {
 	e.sw = &switchReader{inner: e.C}
 	e.Runner = xfn.NewPackagedFunctionRunner(e.sw)
 	e.Eng = NewEngine(e.W, e.C)
+	e.Eng.UC = e.UC
 	dr := definition.NewReconciler(definition.NewClientApplicator(e.C),
 		definition.WithControllerEngine(e.Eng),
 		definition.WithRecorder(e.Rec),
 		definition.WithOptions(apiextensionscontroller.Options{FunctionRunner: e.Runner}))
 	ro := dr.CompositeReconcilerOptions(context.Background(), e.XRD)
 	ro = append(ro, composite.WithRecorder(e.Rec))
-	e.R = composite.NewReconciler(e.C, e.C, resource.CompositeKind(e.GVK), ro...)
+	e.R = composite.NewReconciler(e.C, e.UC, resource.CompositeKind(e.GVK), ro...)
 }
 
 // CloseConns closes the function runner's gRPC connections.
@@ -275,6 +295,9 @@ func (s *switchReader) List(ctx context.Context, l client.ObjectList, opts ...cl
 // case the reconciler is rebuilt (process restart).
 func (e *XREnv) Reconcile(name string) (res reconcile.Result, err error, crashed bool) {
 	e.C.ResetCalls()
+	if e.UC != e.C {
+		e.UC.ResetCalls()
+	}
 	crashed = sim.RunActor(func() {
 		res, err = e.R.Reconcile(context.Background(), reconcile.Request{NamespacedName: types.NamespacedName{Name: name}})
 	})
